@@ -2,7 +2,7 @@
   PV.Model.SftpFileLemmas — helpers for PV.Props.C27: overlay algebra, `_write_all` against the server model.
 -/
 import PV.Model.PyFile
-import PV.Model.BufFileLemmas
+import PV.Model.ReadGeneric
 namespace PV.SftpFile
 open PV PV.BufFile
 
@@ -180,5 +180,225 @@ theorem flush_sftp_noapp (maxReq : Nat) (hm : 1 ≤ maxReq) (f : BF Srv)
   subst h1
   obtain ⟨a, b, c, d, e, g, h, i, j, _, l⟩ := h8
   exact ⟨by triv, h2, h3, h4, h5, h6, h7, by triv, ⟨a, b, c, d, e, g, h, i, j, by triv, l⟩⟩
+
+end PV.SftpFile
+
+namespace PV.SftpFile
+open PV PV.BufFile
+
+/-! ## the SFTP read side satisfies the generic read laws -/
+
+theorem drop_take_length {α : Type} (r : List α) (k : Nat) : r.drop (r.take k).length = r.drop k := by
+  rw [List.length_take]
+  by_cases h : k ≤ r.length
+  · rw [Nat.min_eq_left h]
+  · rw [Nat.min_eq_right (by omega), List.drop_of_length_le (Nat.le_refl _), List.drop_of_length_le (by omega)]
+
+theorem srvRead_spec (s : Srv) (off k : Nat) (hc : Coherent s) :
+    (srvRead s off k).2 = (s.content.drop off).take k ∧
+    (srvRead s off k).1.content = s.content ∧ Coherent (srvRead s off k).1 ∧
+    (srvRead s off k).1.append = s.append ∧ (srvRead s off k).1.hopen = s.hopen ∧
+    (srvRead s off k).1.truncZero = s.truncZero ∧ (srvRead s off k).1.stale = s.stale := by
+  unfold srvRead
+  have ht : s.tell.getD s.fpos = s.fpos := by
+    rcases hc with h | h <;> simp [h]
+  rw [ht]
+  by_cases h : off = s.fpos
+  · subst h; simp [Coherent]
+  · simp [h, Coherent]
+
+/-- what SFTP reads preserve on the server -/
+def srvFrame (a b : Srv) : Prop :=
+  b.content = a.content ∧ b.append = a.append ∧ b.hopen = a.hopen ∧ b.truncZero = a.truncZero ∧ b.stale = a.stale
+
+def sftpLaws (maxReq : Nat) (hm : 1 ≤ maxReq) : ReadLaws (sftpOps maxReq) where
+  rest s rp := s.content.drop rp.toNat
+  ok s rp := 0 ≤ rp ∧ Coherent s ∧ s.stale = false
+  fr := srvFrame
+  fr_refl _ := ⟨rfl, rfl, rfl, rfl, rfl⟩
+  fr_trans a b c h1 h2 := ⟨h2.1.trans h1.1, h2.2.1.trans h1.2.1, h2.2.2.1.trans h1.2.2.1,
+    h2.2.2.2.1.trans h1.2.2.2.1, h2.2.2.2.2.trans h1.2.2.2.2⟩
+  read_spec s rp n hok hn := by
+    obtain ⟨h0, hc, hst⟩ := hok
+    obtain ⟨r1, r2, r3, r4, r5, r6, r7⟩ := srvRead_spec s rp.toNat (min n maxReq) hc
+    have hneg : ¬ rp < 0 := by omega
+    have hrd : (sftpOps maxReq).read s rp n
+        = ((srvRead s rp.toNat (min n maxReq)).1, .ok (srvRead s rp.toNat (min n maxReq)).2) := by
+      simp only [sftpOps, hneg, if_false, hst, Bool.false_eq_true]
+    refine ⟨min n maxReq, by omega, by omega, by rw [hrd, r1], ?_, ?_, ?_⟩
+    · rw [hrd]; exact ⟨by omega, r3, by rw [r7]; exact hst⟩
+    · rw [hrd]
+      simp only
+      rw [r2]
+      have : (rp + ((s.content.drop rp.toNat).take (min n maxReq)).length).toNat
+          = rp.toNat + ((s.content.drop rp.toNat).take (min n maxReq)).length := by omega
+      rw [this, ← List.drop_drop, drop_take_length]
+    · rw [hrd]; exact ⟨r2, r4, r5, r6, r7⟩
+  bound_spec s rp _ := by simp [sftpOps]
+
+/-! ## `_write_all` in append mode -/
+
+theorem writeAllLoop_sftp_app (maxReq : Nat) (hm : 1 ≤ maxReq) (fuel : Nat) (f : BF Srv) (data : Bytes)
+    (hf : data.length < fuel) (h0 : 0 ≤ f.realpos) (hsz : 0 ≤ f.size) (hc : Coherent f.s)
+    (ha : f.app = true) (hsa : f.s.append = true) :
+    (writeAllLoop (sftpOps maxReq) fuel f data).2 = .ok () ∧
+    (writeAllLoop (sftpOps maxReq) fuel f data).1.s.content = f.s.content ++ data ∧
+    (data ≠ [] → (writeAllLoop (sftpOps maxReq) fuel f data).1.pos = f.size + data.length ∧
+                 (writeAllLoop (sftpOps maxReq) fuel f data).1.realpos = f.size + data.length) ∧
+    (data = [] → (writeAllLoop (sftpOps maxReq) fuel f data).1.pos = f.pos ∧
+                 (writeAllLoop (sftpOps maxReq) fuel f data).1.realpos = f.realpos) ∧
+    (writeAllLoop (sftpOps maxReq) fuel f data).1.size = f.size + data.length ∧
+    Coherent (writeAllLoop (sftpOps maxReq) fuel f data).1.s ∧
+    srvSame (writeAllLoop (sftpOps maxReq) fuel f data).1.s f.s ∧
+    cliSame (writeAllLoop (sftpOps maxReq) fuel f data).1 f := by
+  induction fuel generalizing f data with
+  | zero => omega
+  | succ fuel ih =>
+    rw [writeAllLoop]
+    by_cases he : data.isEmpty = true
+    · have : data = [] := by simpa using he
+      subst this
+      simp [hc, srvSame, cliSame]
+    · have hne : data ≠ [] := by simpa using he
+      have hlen : 0 < data.length := List.length_pos_iff.2 hne
+      have hk : 1 ≤ min data.length maxReq := by omega
+      have hk0 : (min data.length maxReq == 0) = false := beq_false_of_ne (by omega)
+      have hneg : ¬ f.realpos < 0 := by omega
+      obtain ⟨w1, w2, w3, w4, w5, w6, w7⟩ := srvWrite_append f.s f.realpos.toNat (data.take (min data.length maxReq)) hsa
+      simp only [he, Bool.false_eq_true, if_false, sftpOps_write, hneg, hk0]
+      have hd : (data.drop (min data.length maxReq)).length < fuel := by
+        simp only [List.length_drop]; omega
+      split
+      · have := ih
+          { f with s := srvWrite f.s f.realpos.toNat (data.take (min data.length maxReq)),
+                   size := f.size + (min data.length maxReq : Nat),
+                   pos := f.size + (min data.length maxReq : Nat),
+                   realpos := f.size + (min data.length maxReq : Nat) }
+          (data.drop (min data.length maxReq)) hd (by simp only; omega) (by simp only; omega) w2 ha w3
+        obtain ⟨i1, i2, i3, i4, i5, i6, i7, i8⟩ := this
+        simp only at i1 i2 i3 i4 i5 i6 i7 i8
+        refine ⟨i1, ?_, fun _ => ?_, fun h => absurd h hne, ?_, i6, ?_, i8⟩
+        · rw [i2, w1, List.append_assoc, List.take_append_drop]
+        · by_cases hr : data.drop (min data.length maxReq) = []
+          · have hl : (data.drop (min data.length maxReq)).length = 0 := by rw [hr]; rfl
+            rw [List.length_drop] at hl
+            obtain ⟨j1, j2⟩ := i4 hr
+            rw [j1, j2]
+            have : (min data.length maxReq : Nat) = data.length := by omega
+            rw [this]; exact ⟨rfl, rfl⟩
+          · obtain ⟨j1, j2⟩ := i3 hr
+            rw [j1, j2]; simp only [List.length_drop]
+            constructor <;> omega
+        · rw [i5]; simp only [List.length_drop]; omega
+        · obtain ⟨a, b, c, d, e⟩ := i7
+          exact ⟨by rw [a, w3, hsa], b.trans w4, c.trans w5, d.trans w6, e.trans w7⟩
+      · rename_i happ
+        exact absurd ha (by simpa using happ)
+
+/-! ## `_write_all` as the refinement needs it (read-ahead dropped first; append or not) -/
+
+/-- position / server facts every write relies on -/
+structure WPre (f : BF Srv) : Prop where
+  pos0 : 0 ≤ f.pos
+  rp : f.realpos = f.pos + f.rbuf.length
+  coh : Coherent f.s
+  sapp : f.s.append = f.app
+  asize : f.app = true → f.size = f.s.content.length
+
+theorem dropReadAhead_sftp (maxReq : Nat) (f : BF Srv) (data : Bytes) (hne : data ≠ [])
+    (hrp : f.realpos = f.pos + f.rbuf.length) :
+    dropReadAhead (sftpOps maxReq) f data = { f with rbuf := [], realpos := f.pos } := by
+  have he : data.isEmpty = false := by simpa using hne
+  unfold dropReadAhead
+  by_cases hr : f.rbuf = []
+  · have : f.realpos = f.pos := by rw [hrp, hr]; simp
+    simp only [he, hr, List.isEmpty_nil, Bool.not_true, Bool.and_false, Bool.false_and, Bool.false_eq_true, if_false]
+    cases f; simp_all
+  · have hr' : f.rbuf.isEmpty = false := by simpa using hr
+    simp [he, hr', sftpOps]
+
+/-- client-side fields a write-out leaves alone (the read-ahead buffer is emptied) -/
+def cliSameW (a b : BF Srv) : Prop :=
+  a.rd = b.rd ∧ a.wr = b.wr ∧ a.app = b.app ∧ a.bin = b.bin ∧ a.buffered = b.buffered ∧ a.lineBuf = b.lineBuf ∧
+  a.bufsize = b.bufsize ∧ a.dflt = b.dflt ∧ a.wbuf = b.wbuf ∧ a.closed = b.closed
+
+theorem writeAll_sftp (maxReq : Nat) (hm : 1 ≤ maxReq) (f : BF Srv) (data : Bytes) (h : WPre f) (hne : data ≠ []) :
+    (writeAll (sftpOps maxReq) f data).2 = .ok () ∧
+    (writeAll (sftpOps maxReq) f data).1.s.content
+      = (if f.app = true then f.s.content ++ data else overlay f.s.content f.pos.toNat data) ∧
+    (writeAll (sftpOps maxReq) f data).1.pos
+      = (if f.app = true then ((f.s.content.length + data.length : Nat) : Int) else f.pos + data.length) ∧
+    (writeAll (sftpOps maxReq) f data).1.realpos = (writeAll (sftpOps maxReq) f data).1.pos ∧
+    (writeAll (sftpOps maxReq) f data).1.rbuf = [] ∧
+    (f.app = true → (writeAll (sftpOps maxReq) f data).1.size = (f.s.content.length + data.length : Nat)) ∧
+    Coherent (writeAll (sftpOps maxReq) f data).1.s ∧
+    srvSame (writeAll (sftpOps maxReq) f data).1.s f.s ∧
+    cliSameW (writeAll (sftpOps maxReq) f data).1 f := by
+  unfold writeAll
+  rw [dropReadAhead_sftp maxReq f data hne h.rp]
+  by_cases ha : f.app = true
+  · have hsa : f.s.append = true := by rw [h.sapp, ha]
+    have hsz := h.asize ha
+    obtain ⟨i1, i2, i3, _, i5, i6, i7, i8⟩ := writeAllLoop_sftp_app maxReq hm (data.length + 1)
+      { f with rbuf := [], realpos := f.pos } data (by omega) h.pos0 (by simp only; omega) h.coh ha hsa
+    obtain ⟨j1, j2⟩ := i3 hne
+    simp only at i1 i2 j1 j2 i5 i6 i7 i8
+    obtain ⟨c1, c2, c3, c4, c5, c6, c7, c8, c9, c10, c11⟩ := i8
+    rw [if_pos ha, if_pos ha]
+    refine ⟨i1, i2, by rw [j1, hsz]; push_cast; rfl, by rw [j2, j1], c9, fun _ => by rw [i5, hsz]; push_cast; rfl, i6, i7,
+      ⟨c1, c2, c3, c4, c5, c6, c7, c8, c10, c11⟩⟩
+  · have ha' : f.app = false := by simpa using ha
+    have hsa : f.s.append = false := by rw [h.sapp, ha']
+    obtain ⟨i1, i2, i3, i4, _, i6, i7, i8⟩ := writeAllLoop_sftp_noapp maxReq hm (data.length + 1)
+      { f with rbuf := [], realpos := f.pos } data (by omega) h.pos0 h.coh ha' hsa
+    simp only at i1 i2 i3 i4 i6 i7 i8
+    obtain ⟨c1, c2, c3, c4, c5, c6, c7, c8, c9, c10, c11⟩ := i8
+    rw [if_neg ha, if_neg ha]
+    exact ⟨i1, i2, i3, by rw [i4, i3], c9, fun h => absurd h ha, i6, i7, ⟨c1, c2, c3, c4, c5, c6, c7, c8, c10, c11⟩⟩
+
+end PV.SftpFile
+
+namespace PV.SftpFile
+open PV PV.BufFile
+
+/-- `_write_all` neither reads nor changes the write buffer and the buffering flag -/
+theorem writeAllLoop_irrelevant {σ : Type} (o : Ops σ) (fuel : Nat) (f : BF σ) (d w : Bytes) (b : Bool) :
+    writeAllLoop o fuel { f with wbuf := w, buffered := b } d
+      = ({ (writeAllLoop o fuel f d).1 with wbuf := w, buffered := b }, (writeAllLoop o fuel f d).2) := by
+  induction fuel generalizing f d with
+  | zero => rfl
+  | succ fuel ih =>
+    rw [writeAllLoop, writeAllLoop]
+    by_cases he : d.isEmpty = true
+    · simp only [he, if_true]
+    · simp only [he, Bool.false_eq_true, if_false]
+      rcases o.write f.s f.realpos d with ⟨s', r⟩
+      cases r with
+      | error e => rfl
+      | ok count =>
+        simp only
+        by_cases hc : (count == 0) = true
+        · simp only [hc, if_true]
+        · simp only [hc, Bool.false_eq_true, if_false]
+          split
+          · exact ih { f with s := s', size := f.size + count, pos := f.size + count, realpos := f.size + count }
+              (d.drop count)
+          · exact ih { f with s := s', pos := f.pos + count, realpos := f.realpos + count } (d.drop count)
+
+theorem writeAll_irrelevant {σ : Type} (o : Ops σ) (f : BF σ) (d w : Bytes) (b : Bool) :
+    writeAll o { f with wbuf := w, buffered := b } d
+      = ({ (writeAll o f d).1 with wbuf := w, buffered := b }, (writeAll o f d).2) := by
+  unfold writeAll
+  have : dropReadAhead o { f with wbuf := w, buffered := b } d
+      = { dropReadAhead o f d with wbuf := w, buffered := b } := by
+    unfold dropReadAhead
+    split <;> rfl
+  rw [this]
+  exact writeAllLoop_irrelevant o _ _ d w b
+
+theorem writeAll_nil {σ : Type} (o : Ops σ) (f : BF σ) : writeAll o f [] = (f, .ok ()) := by
+  unfold writeAll
+  rw [dropReadAhead_nil o f [] (Or.inr rfl)]
+  simp [writeAllLoop]
 
 end PV.SftpFile
